@@ -78,6 +78,8 @@ class CacheRun(object):
     self.clock = FakeTime()
     m.cache.time = self.clock
     self.cache = m.cache.MetricCache()
+    if cfg.get('via') == 'processor':
+      self.proc = m.cache.CacheFeedingProcessor()
     self.sched = sched.Scheduler(files=self.files, opcodes=self.opcodes)
     self.cache.lock = self.sched.lock('cache')
     m.state.cacheTooFull = False
@@ -127,7 +129,16 @@ class CacheRun(object):
   def mid(self, name):
     if name is None:
       return 0
-    return int(name[1:])
+    return int(name.split(';')[0].split('{')[0][1:])
+
+  # with cfg['via'] = 'processor' the datapoints arrive through the daemon's CacheFeedingProcessor under several spellings
+  # of one tagged series (tags in another order, OpenMetrics syntax); the cache holds it under its canonical name
+  def key(self, mname):
+    return mname + ';a=1;b=2' if self.cfg.get('via') == 'processor' else mname
+
+  def spelled(self, mname):
+    self.nspell = getattr(self, 'nspell', 0) + 1
+    return [mname + ';b=2;a=1', mname + '{b="2",a="1"}', mname + ';a=1;b=2'][self.nspell % 3]
 
   def observe(self, thread=None, kind=None, force=False):
     c = self.cache
@@ -144,13 +155,13 @@ class CacheRun(object):
       self.ev.append(dict(k='obs', size=o[0], held=o[1], nkeys=o[2]))
 
   # ---- operations ----------------------------------------------------------------
-  # with cfg['frac'] the timestamp ids 1, 2, 3.. are the float timestamps 10.25, 10.5, 10.75, 11.0, ..:
-  # several in one whole second, still strictly increasing with the id
+  # with cfg['frac'] the timestamp ids 1, 2, 3.. are the float timestamps 10.0, 10.25, 10.5, 10.75, 11.0, ..: a whole
+  # second and several sub-second timestamps of the same second, still strictly increasing with the id
   def tenc(self, ts):
-    return 10 + 0.25 * ts if self.cfg.get('frac') else ts
+    return 10 + 0.25 * (ts - 1) if self.cfg.get('frac') else ts
 
   def tdec(self, x):
-    return int(round((x - 10) / 0.25)) if self.cfg.get('frac') else int(x)
+    return int(round((x - 10) / 0.25)) + 1 if self.cfg.get('frac') else int(x)
 
   def do_store(self, t, op):
     _, mname, ts, vid = op
@@ -158,7 +169,10 @@ class CacheRun(object):
     before = self.overflow
     exc = 0
     try:
-      self.cache.store(mname, (self.tenc(ts), enc(vid)))
+      if self.cfg.get('via') == 'processor':
+        list(self.proc.process(self.spelled(mname), (self.tenc(ts), enc(vid))) or ())
+      else:
+        self.cache.store(mname, (self.tenc(ts), enc(vid)))
     except Exception as e:
       exc = 1
       self.last_exc = repr(e)
@@ -180,6 +194,7 @@ class CacheRun(object):
   def do_query(self, t, op):
     from twisted.internet.testing import StringTransport
     _, mname = op
+    mname = self.key(mname)
     self.ev.append(dict(k='call', t=t, op='query', m=self.mid(mname), ts=0, id=0))
     h = self.mods.protocols.CacheManagementHandler()
     tr = StringTransport()
